@@ -12,6 +12,7 @@ from sysloss.components import Source, RLoss, Converter, ILoad, PMux, LinReg, _C
 
 LET = {
     "R": lambda n: RLoss(n, rs=0.5),
+    "W": lambda n: RLoss(n, rs=0.5, limits={"vi": [0.0, 1.0], "pl": [0.0, 1e-6]}),  # same element with limits that make it warn
     "C": lambda n: Converter(n, vo=3.3, eff=0.9, iq=1e-3, iis=1e-4),
     "I": lambda n: ILoad(n, ii=0.1, iis=1e-3),
     "M": lambda n: PMux(n, rs=0.1, ig=1e-4),
@@ -19,11 +20,14 @@ LET = {
 }
 KIND_OF = {"R": "RLoss", "C": "Converter", "I": "ILoad", "M": "PMux", "S": "Source"}
 LETTER_OF = {v: k for k, v in KIND_OF.items()}
+SAME_KIND = {"W": "R"}
 
 SEEDS = {
     "single": [],
     "rails": [["ac", "Q0", "C", "A1", "QA", "g1"], ["ac", "A1", "I", "A2", "", "g2"]],            # S1 has rail Q0 (see mk)
     "mux": [["ac", "S1", "R", "A1", ""], ["as", "S2", ""], ["ac", ["A1", "S2"], "M", "MX", ""], ["ac", "MX", "I", "A3", ""]],
+    "freed0": [["as", "S2", ""], ["dc", "S1", True], ["ac", "S2", "M", "MX", ""], ["ac", "MX", "I", "A3", ""]],   # a PMux sitting at graph index 0
+    "rerail": [["ac", "S1", "C", "A1", "QA"], ["ac", "QA", "I", "A2", ""], ["ac", "S1", "R", "A3", ""], ["cc", "A1", "C", "A1", "QB"], ["cc", "A3", "R", "A3", "QA"]],  # a rail handed over to another owner
     "mux3": [["ac", "S1", "R", "A1", ""], ["as", "S2", ""], ["ac", ["A1", "S1", "S2"], "M", "MX", ""], ["ac", "MX", "I", "A3", ""], ["ac", "A1", "I", "A4", ""]],
     "phases": [["ac", "S1", "C", "A1", ""], ["ac", "A1", "I", "A2", ""], ["sp", [["p", 1.0], ["q", 2.0]]], ["cp", "A1", ["p"], "l"], ["cp", "A2", [["p", 0.05]], "d"]],
     "freed": [["ac", "S1", "R", "A1", ""], ["ac", "A1", "I", "A2", ""], ["ac", "S1", "C", "A3", ""], ["dc", "A1", True]],
@@ -40,6 +44,8 @@ def apply(s, op):
     k = op[0]
     if k == "as":
         s.add_source(LET["S"](op[1]), rail=op[2])
+    elif k == "asx":  # add_source with something that is not a Source
+        s.add_source(LET[op[2]](op[1]))
     elif k == "ac":
         s.add_comp(list(op[1]) if isinstance(op[1], (list, tuple)) else op[1], comp=LET[op[2]](op[3]), rail=op[4], group=op[5] if len(op) > 5 else "")
     elif k == "cc":
@@ -103,6 +109,7 @@ def kfull(s, ghost):
                  for k in ["name", "nodes", "groups", "rails", "phase_conf", "phases", "pnames"])
     # any instance attribute other than the graph and the documented per-analysis caches is hidden state: make it visible
     extra = tuple(sorted((k, repr(v)[:200]) for k, v in s.__dict__.items() if k not in ("_g", "_parents", "_childs", "_topo_nodes", "_phase_lkup")))
+    extra += tuple(sorted((k, repr(v)[:200]) for k, v in A.items() if k not in ("name", "nodes", "groups", "rails", "phase_conf", "phases", "pnames", "hidx")))
     return (nodes, regs, tuple(ghost), extra)
 
 
@@ -131,6 +138,8 @@ def ops(s, budget, letters="RCIM", phase_ops=True, gone=(), analysis_op=False):
             out.append((cost, op))
 
     add(0, ["as", fresh, ""])
+    add(1, ["asx", fresh, "R"])
+    add(1, ["asx", fresh, "I"])
     add(1, ["as", fresh, frail])
     add(1, ["as", names[0], ""])
     add(2, ["as", fresh, names[0]])
@@ -219,7 +228,8 @@ def kstruct(s):
             owners = {r: k for k, r in A["rails"].items() if r}
             preds = [p if p in A["nodes"] else owners.get(p, p) for p in pn]
         out[name] = dict(letter=LETTER_OF.get(type(c).__name__, "?"), params=_pj(c._params), parents=preds,
-                         rail=A["rails"].get(name, "<missing>"), group=A["groups"].get(name, "<missing>"), pc=_pj(A["phase_conf"].get(name, "<missing>")))
+                         rail=A["rails"].get(name, "<missing>"), group=A["groups"].get(name, "<missing>"), pc=_pj(A["phase_conf"].get(name, "<missing>")),
+                         limits=_pj(c._limits))
     return {"comps": out, "phases": _pj(A["phases"])}
 
 
@@ -249,6 +259,9 @@ def model_apply(models, op):
         k = op[0]
         if k == "as":
             C[op[1]] = dict(letter="S", parents=[], rail=op[2], group="", pc="{}")
+            out.append(m)
+        elif k == "asx":  # never acceptable: a non-source root
+            m["comps"]["<non-source accepted as source>"] = dict(letter="?", parents=[], rail="", group="", pc="{}")
             out.append(m)
         elif k == "ac":
             des = op[1] if isinstance(op[1], (list, tuple)) else [op[1]]
@@ -300,8 +313,7 @@ def model_apply(models, op):
                                 if par in ps:
                                     cands.append([p for p in ps if p != t])            # merged
                                 else:
-                                    cands.append(ps[:i] + [par] + ps[i + 1:])            # same position
-                                    cands.append([p for p in ps if p != t] + [par])      # appended
+                                    cands.append(ps[:i] + [par] + ps[i + 1:])            # the new parent takes the deleted input's place
                                 for cnd in cands:
                                     v2 = copy.deepcopy(v)
                                     v2["comps"][n]["parents"] = cnd
@@ -331,10 +343,12 @@ def struct_matches(real, model):
         d.append("phases %s vs %s" % (real["phases"], model["phases"]))
     for n in rc:
         r, m = rc[n], mc[n]
-        if r["letter"] != m["letter"]:
+        if r["letter"] != SAME_KIND.get(m["letter"], m["letter"]):
             d.append("%s kind %s vs %s" % (n, r["letter"], m["letter"]))
         elif r["params"] != _pj(LET[m["letter"]](n)._params):
             d.append("%s params differ" % n)
+        elif r["limits"] != _pj(LET[m["letter"]](n)._limits):
+            d.append("%s limits differ" % n)
         pr, pm = r["parents"], m["parents"]
         if (pr != pm) if len(pm) > 1 else (sorted(pr) != sorted(pm)):
             d.append("%s parents %r vs %r" % (n, pr, pm))
